@@ -26,7 +26,7 @@ Definition put_u16 (buf : bytes) (off v : N) : res bytes :=
   if off + 2 <=? lenN buf then Ok (takeN off buf ++ u16 v ++ dropN (off + 2) buf) else Panic.
 
 (* ---------- UnpackDomainName (msg.go) ---------- *)
-Definition max_ptrs : N := 126.      (* maxCompressionPointers = (255+1)/2 - 2 *)
+Definition max_ptrs : N := 127.      (* maxCompressionPointers = (255+1)/2 - 1 (one pointer per label, repo fix d9981c7) *)
 Definition name_budget : N := 255.   (* maxDomainNameWireOctets *)
 Definition name_fuel : nat := 400.
 
